@@ -18,7 +18,8 @@ BUDGET_S = {"quick": 150, "thorough": 2400}
 RULE = ("Files are generated per registered suffix from that language's comment forms (line, block, "
         "decorated-star, doc, Markdown link, HTML), code lines and decoy tags in strings/markup, with "
         "nesting <=4, tags alone / after prose / on line k of n / several per comment (start+end, two starts, two ends) / followed by code, "
-        "LF or CRLF, ASCII or multi-byte prose. Truth is recorded while writing. A case is one file; it is "
+        "LF or CRLF, ASCII or multi-byte prose; comments inside the code part of string interpolations (JS/TS template literals, JSX "
+        "expression containers, shell $( ), Python f-strings, Ruby #{}, Kotlin ${}, C# $\"{}\", PHP embedded in markup). Truth is recorded while writing. A case is one file; it is "
         "non-trivial when it has >=2 blocks and (nesting or a decoy). Distinct = hash of file bytes + suffix.")
 ASSUMPTIONS = [
     "the hand-checked language table (bwverif/langs.py) only lists comment/string forms that are such by the language definition",
@@ -52,6 +53,10 @@ def plan(tier, seed):
     for suffix in ("md", "markdown"):
         for i in range(6 if tier == "quick" else 60):
             jobs.append({"k": "md-nested", "suffix": suffix, "i": i, "seed": seed, "flavour": "rel"})
+    for suffix in langs.ALL_SUFFIXES:
+        if langs.SUFFIX_LANG[suffix] in langs.INTERP:
+            for i in range(2 if tier == "quick" else 20):
+                jobs.append({"k": "interp", "suffix": suffix, "i": i, "seed": seed, "flavour": "rel"})
     if tier == "thorough":
         for suffix in langs.ALL_SUFFIXES:
             if suffix == "swift":
@@ -198,6 +203,10 @@ def run_job(job, ctx):
         for j in range(6):
             r = rng("c03md", job["seed"], suffix, job["i"], j)
             out.append(check_file(ctx, suffix, _md_nested(r, script), flavour, dict(job, j=j)))
+    elif job["k"] == "interp":
+        for j in range(6):
+            r = rng("c03i", job["seed"], suffix, job["i"], j)
+            out.append(check_file(ctx, suffix, _interp_file(r, lang, script), flavour, dict(job, j=j)))
     elif job["k"] == "witness-kotlin-inline":
         out.append(_kotlin_witness(ctx, script))
     elif job["k"] == "witness-java-textblock":
@@ -241,6 +250,59 @@ def _md_nested(r, script):
     blocks = b.blocks()
     return gen.GenFile("markdown", b, blocks, {"layouts": ["md-nested"], "forms": ["xml"], "decoys": 0,
                                                "max_depth": 2, "nested": sum(1 for x in blocks if x.depth), "blocks": len(blocks)})
+
+
+def _interp_file(r, lang, script):
+    """Tags in comments written inside the code part of a string interpolation / embedded code: comments like any other, although
+    an ancestor of the comment node is a string, template or markup node."""
+    l = langs.LANGS[lang]
+    b = fbm.FB()
+    for line in l["prologue"]:
+        b.line_text(line)
+    n = [0]
+    plain = l["forms"][0]
+
+    def comment_with(kind, src, attrs, interp):
+        n[0] += 1
+        if interp:
+            pre, form, post = r.choice(langs.INTERP[lang])
+            b.raw(pre.replace("%d", str(n[0])))
+            b.open_comment(form)
+            b.raw(" ")
+            b.tag(kind, src, attrs)
+            b.raw(" " if form.kind == "block" else "")
+            b.close_comment()
+            b.raw(post)
+            b.nl()
+        else:
+            b.open_comment(plain)
+            b.raw(" ")
+            b.tag(kind, src, attrs)
+            b.raw(" " if plain.kind == "block" else "")
+            b.close_comment()
+            b.nl()
+
+    idx = 0
+    for _ in range(r.randint(1, 3)):
+        depth = r.choice([1, 1, 2])
+        kinds = []
+        for d in range(depth):
+            src, attrs = fbm.start_tag(_attrs_fn(script)(idx))
+            idx += 1
+            it = r.random() < 0.7
+            kinds.append(it)
+            comment_with("start", src, attrs, it)
+            b.line_text(r.choice(l["code"]))
+        for d in range(depth):
+            # at least one of a pair's two tags sits in an interpolation
+            comment_with("end", fbm.END_TAG, None, r.random() < 0.7 or not kinds[depth - 1 - d])
+            if r.random() < 0.5:
+                b.line_text(r.choice(l["code"]))
+    for line in l["epilogue"]:
+        b.line_text(line)
+    blocks = b.blocks()
+    return gen.GenFile(lang, b, blocks, {"layouts": ["interp"], "forms": ["interp"], "decoys": 1, "max_depth": 2,
+                                         "nested": sum(1 for x in blocks if x.depth), "blocks": len(blocks)})
 
 
 def _java_witness(ctx, script):
@@ -299,5 +361,5 @@ LEVEL_TEXT = ("Sampling of an unbounded input space with a systematic part: ever
               "echoed content are compared with the truth recorded while the file was written. Held on the executions "
               "observed, not a proof; thorough replays a slice under an ASan build with the C parsers instrumented.")
 LEVEL_NOTE = ("Trusted: the hand-checked language table, git-free scratch repos, Python's byte/line accounting. "
-              "Not covered: comment forms outside the table, heredocs/template strings, Kotlin inline layout (known finding).")
+              "Not covered: comment forms outside the table, Kotlin inline layout (known finding).")
 TECHNIQUE = "runtime monitoring: construction-truth oracle over `blockwatch list` and Lua-echoed content of generated files"
